@@ -5,6 +5,9 @@
 -/
 import MocVerif.Lemmas.Expr
 import MocVerif.Model.Params
+import MocVerif.Props.C06
+import MocVerif.Lemmas.ValidOps
+import MocVerif.Lemmas.Valid
 
 namespace Moc.C02
 
@@ -49,6 +52,63 @@ theorem binary_valid (q : Qty) (w dl dr : Nat) (a b o : List Rng) (f : Prop → 
     iff its set is a union of whole cells. -/
 theorem aligned_iff_cell_closed (c : Nat) (hc : 0 < c) (l : List Rng) (hcan : Canon l) :
     Aligned c l ↔ CellClosed c l := aligned_iff_cellClosed c hc l hcan
+
+theorem nCells_mul (q : Qty) (w d : Nat) (hd : d ≤ q.maxDepth w) :
+    q.nCells d * 2 ^ q.shiftFromMax w d = q.nCellsMax w := by
+  unfold Qty.nCells Qty.shiftFromMax
+  rw [Qty.nCellsMax_eq, Nat.shiftLeft_eq, Nat.mul_assoc, ← Nat.pow_add, ← Nat.mul_add]
+  congr 3
+  omega
+
+/-- **Fixed-depth builder**: for in-domain cells the MOC built is VALID at the builder depth (canonical, inside
+    the domain, aligned on the cells of that depth), whatever the order, duplicates and buffer capacity. -/
+theorem fixedDepth_builder_valid (q : Qty) (w d cap : Nat) (cells : List Nat) (hd : d ≤ q.maxDepth w)
+    (hc : ∀ c ∈ cells, c < q.nCells d) :
+    Valid q w d (fromFixedDepthCells (q.shiftFromMax w d) cap cells) := by
+  have sem := C06.build_sem (q.shiftFromMax w d) cap cells
+  have hpos : 0 < 2 ^ q.shiftFromMax w d := Nat.pos_of_ne_zero (by simp)
+  have hcs : q.cellSize w d = 2 ^ q.shiftFromMax w d := by simp [Qty.cellSize, Nat.shiftLeft_eq]
+  refine ⟨sem.1, ?_, ?_⟩
+  · rw [boundedBy_iff _ _ 0 sem.1]
+    intro x hx
+    have hm := hc _ ((sem.2 x).1 hx)
+    rw [← nCells_mul q w d hd]
+    have h1 : x < (x / 2 ^ q.shiftFromMax w d + 1) * 2 ^ q.shiftFromMax w d := by
+      have := Nat.lt_div_mul_add (a := x) hpos
+      rw [Nat.add_mul]; omega
+    exact Nat.lt_of_lt_of_le h1 (Nat.mul_le_mul_right _ hm)
+  · rw [hcs, aligned_iff_cellClosed _ hpos _ sem.1]
+    intro x y hxy hx
+    rw [sem.2] at hx ⊢
+    rw [← hxy]; exact hx
+
+/-- **Range builder** (`from_maxdepth_ranges`, `from_cells`, the time / frequency range builders): for non-empty
+    in-domain ranges the MOC built is VALID at the builder depth. -/
+theorem range_builder_valid (q : Qty) (w d cap : Nat) (rs : List Rng)
+    (hr : ∀ r ∈ rs, r.1 < r.2 ∧ r.2 ≤ q.nCellsMax w) :
+    Valid q w d (fromMaxdepthRanges (q.shiftFromMax w d) cap rs) := by
+  have sem := C06.rangeBuilder_sem (q.shiftFromMax w d) cap rs (fun r h => (hr r h).1)
+  have hpos : 0 < 2 ^ q.shiftFromMax w d := Nat.pos_of_ne_zero (by simp)
+  have hcs : q.cellSize w d = 2 ^ q.shiftFromMax w d := by simp [Qty.cellSize, Nat.shiftLeft_eq]
+  have hdvd : 2 ^ q.shiftFromMax w d ∣ q.nCellsMax w := by rw [← hcs]; exact q.cellSize_dvd_nCellsMax w d
+  refine ⟨sem.1, ?_, ?_⟩
+  · rw [boundedBy_iff _ _ 0 sem.1]
+    intro x hx
+    obtain ⟨r, hr', y, _, y2, hxy⟩ := (sem.2 x).1 hx
+    have hy : y < q.nCellsMax w := Nat.lt_of_lt_of_le y2 (hr r hr').2
+    obtain ⟨k, hk⟩ := hdvd
+    rw [hk] at hy ⊢
+    have h1 : y / 2 ^ q.shiftFromMax w d < k := by
+      rw [Nat.div_lt_iff_lt_mul hpos, Nat.mul_comm]; exact hy
+    rw [← hxy] at h1
+    have := (Nat.div_lt_iff_lt_mul hpos).1 h1
+    rw [Nat.mul_comm] at this; exact this
+  · rw [hcs, aligned_iff_cellClosed _ hpos _ sem.1]
+    intro x y hxy hx
+    rw [sem.2] at hx ⊢
+    obtain ⟨r, hr', z, z1, z2, hz⟩ := hx
+    exact ⟨r, hr', z, z1, z2, by rw [← hxy]; exact hz⟩
+
 
 /-! Non-vacuity -/
 example : 0 < Params.hpx.nCellsMax 64 := by decide
